@@ -158,6 +158,12 @@ func buildCorpus() {
 	corpus = append(corpus, corpusEntry{name: "any-ptr/RequestHeader", value: &a2, target: func() any { return &kmip.RequestHeader{} }})
 	hdr := &kmip.RequestHeader{ProtocolVersion: kmip.V1_4, BatchCount: 1, ClientCorrelationValue: "ccv", AttestationCapableIndicator: &t}
 	corpus = append(corpus, corpusEntry{name: "bare-header/1.4", value: hdr, target: func() any { return &kmip.RequestHeader{} }})
+	// text strings that need escaping in the XML / JSON / text forms (quotes, backslashes, control characters,
+	// non-ASCII, long): several different ones, so that concurrent encodes cannot pass for each other
+	for i, txt := range []string{"say \"hello\" \\ twice", "n\u00e4me-\u00fcnicode-\u4e2d\u6587", "ctrl-\x01-\x1f-\x7f-tab\tnl\n", strings.Repeat("<&>'\"", 40), "plain-but-long-" + strings.Repeat("x", 300)} {
+		v := ttlv.Value{Tag: 0x420078, Value: ttlv.Struct{{Tag: 0x420055, Value: txt}, {Tag: 0x420069, Value: int32(i)}, {Tag: 0x420094, Value: txt + "|" + txt}}}
+		corpus = append(corpus, corpusEntry{name: fmt.Sprintf("escaped-text/%d", i), value: v, target: func() any { return &ttlv.Value{} }})
+	}
 	// the same values as spelled by a foreign peer: enumeration names in another case (whether the decoders accept
 	// them is not the point: whatever they do with them must leave nothing behind for later calls)
 	for _, base := range []int{0, 1, 5, len(corpus) - 12, len(corpus) - 11} {
